@@ -54,6 +54,16 @@ class Ctx:
         self.repo = os.path.abspath(repo)
         self.replay = replay
         tag = pid if self.repo == "/repo" else pid + "-" + hashlib.sha1(self.repo.encode()).hexdigest()[:8]
+        # one run at a time owns .work/<tag>; a second concurrent run of the same check on the same tree (quick and
+        # thorough started together, a --replay while a run is going) gets a private directory instead of wiping it
+        os.makedirs(os.path.join(VERIF, ".work"), exist_ok=True)
+        self._own = open(os.path.join(VERIF, ".work", tag + ".owner"), "w")
+        self.private_work = False
+        try:
+            fcntl.flock(self._own, fcntl.LOCK_EX | fcntl.LOCK_NB)
+        except OSError:
+            tag = "%s.%d" % (tag, os.getpid())
+            self.private_work = True
         self.work = os.path.join(VERIF, ".work", tag)
         shutil.rmtree(self.work, ignore_errors=True)
         os.makedirs(self.work, exist_ok=True)
@@ -648,8 +658,10 @@ class Ctx:
         }
         if self.repo == "/repo" and not self.replay:
             os.makedirs(os.path.join(VERIF, "evidence"), exist_ok=True)
-            with open(os.path.join(VERIF, "evidence", self.id + ".json"), "w") as f:
+            evp = os.path.join(VERIF, "evidence", self.id + ".json")
+            with open(evp + ".%d.tmp" % os.getpid(), "w") as f:
                 json.dump(ev, f, indent=1)
+            os.replace(evp + ".%d.tmp" % os.getpid(), evp)
         else:
             with open(os.path.join(self.work, "evidence.json"), "w") as f:
                 json.dump(ev, f, indent=1)
@@ -658,6 +670,8 @@ class Ctx:
         for l in lines_out:
             print(l)
         sys.stdout.flush()
+        if self.private_work:
+            shutil.rmtree(self.work, ignore_errors=True)
         return exit_code
 
 
